@@ -89,6 +89,10 @@ func buildAccessories() []*accessory.Accessory {
 	svc.AddCharacteristic(ro.Characteristic)
 	svc.AddCharacteristic(rw.Characteristic)
 	svc.AddCharacteristic(u32.Characteristic)
+	// write + events but NOT readable (a "button"): subscribers are told that it changed, never its value
+	we := characteristic.NewString("F0000006-0000-1000-8000-0026BB765291")
+	we.Perms = []string{characteristic.PermWrite, characteristic.PermEvents}
+	svc.AddCharacteristic(we.Characteristic)
 	sw.AddService(svc)
 	return []*accessory.Accessory{br.Accessory, lb.Accessory, th.Accessory, sw.Accessory}
 }
@@ -348,6 +352,20 @@ func runStack(id string, toks []string) (res string) {
 			} else if c != nil {
 				c.UpdateValue(v)
 			}
+		case "GCB":
+			// GCB:<aid.iid>:<value|->  the application installs (removes) a read callback that answers with a fixed value
+			// (hardware that lags behind what was written)
+			if c := w.find(p[1]); c != nil {
+				if p[2] == "-" {
+					c.OnValueGet(nil)
+				} else {
+					v := tokenValue(strings.SplitN(strings.Join(p[2:], ":"), "@", 2)[0])
+					if f, ok := v.(float64); ok && c.Format != characteristic.FormatFloat {
+						v = int(f)
+					}
+					c.OnValueGet(func() interface{} { return v })
+				}
+			}
 		case "S":
 			emit(w.pairSetup(p[1], p[2], p[3]))
 		case "V":
@@ -374,7 +392,7 @@ func runStack(id string, toks []string) (res string) {
 			}
 		case "RACE":
 			emit(w.raceReads(p[1], p[2], p[3]))
-		case "G", "A", "P", "R", "X", "E":
+		case "G", "A", "P", "PM", "R", "X", "E":
 			emit(w.httpOp(p))
 		default:
 			emit("badop:" + op)
@@ -717,6 +735,29 @@ func (w *world) httpOp(p []string) string {
 			m["ev"] = "true"
 		}
 		body, _ := json.Marshal(map[string]interface{}{"characteristics": []interface{}{m}})
+		r, e := do("PUT", "/characteristics", "application/hap+json", body)
+		if e != "" {
+			return "P=" + e
+		}
+		return fmt.Sprintf("P=%d:%s", r.status, charsSummary(r.body))
+	case "PM":
+		// PM:<c>:<aid.iid>~<value or ->~<ev 0|1|->+<aid.iid>~...   several entries in ONE write request
+		var entries []interface{}
+		for _, e := range strings.Split(p[2], "+") {
+			q := strings.Split(e, "~")
+			ids := strings.Split(q[0], ".")
+			aid, _ := strconv.Atoi(ids[0])
+			iid, _ := strconv.Atoi(ids[1])
+			m := map[string]interface{}{"aid": aid, "iid": iid}
+			if q[1] != "-" {
+				m["value"] = tokenValue(q[1])
+			}
+			if q[2] == "0" || q[2] == "1" {
+				m["ev"] = q[2] == "1"
+			}
+			entries = append(entries, m)
+		}
+		body, _ := json.Marshal(map[string]interface{}{"characteristics": entries})
 		r, e := do("PUT", "/characteristics", "application/hap+json", body)
 		if e != "" {
 			return "P=" + e
